@@ -200,6 +200,18 @@ CHECKS["C08"] = dict(
          "checked independence of tasks (disjoint footprints, order-independent bitwise results) plus free-running real-thread "
          "runs (supplementary, not deciding). Reference configuration is tied to the semantics by C01.")
 
+CHECKS["C18"] = dict(
+    category="model_checking", design_ref="DESIGN.md §3 C18",
+    technique="explicit enumeration of ALL operation sequences to depth 2 (3 in thorough) over five tensor formats x all small shapes "
+              "x all per-axis index expressions WITHOUT state merging, each step compared exactly with a dense ndarray model "
+              "(integer payloads) plus operand immutability; enumerated families for the approximation clauses",
+    text="~2.9M (quick) / 44M (thorough) transitions over canonical, Tucker, sum, product tensors and Kronecker-rank operators: "
+         "arithmetic, indexing/slicing, squeeze, mode products, norms, orthogonalisation, conversion, joining, padding, operator "
+         "application/composition/transposition/kron/slice commute with expansion to a full array; compress/truncate tolerances over "
+         "10 decades, HOSVD, ACA (exact Fraction cross model), ACA-3D, ALS, greedy approximations and entry generators.",
+    note="Trusted: ref/tensor_model.py dense model; np.random reseeded per case; index expressions where numpy semantics differ from "
+         "per-axis indexing are not generated; ALS from random starts only held to what is documented.")
+
 NOT_YET = {}
 
 
